@@ -4,6 +4,7 @@ CONSTANTS Deltas = {0, 10, 21}
   MaxChunks = 2
   MaxBytes = 6
   Cap = 32
+  Ignores = {"none"}
   Variant = "announce_on_any_syn"
   Scripts1 = {1, 7}
   Scripts2 = {9}
